@@ -82,6 +82,8 @@ def run(F, rep, tier):
     # a literal with a named zone (or none) denotes the written wall clock reading in that zone: the zone's offset is resolved for that reading as local time
     c15.wall_clock_rule(F, rep)
     fraction_carrier_rule(F, rep)
+    lexical_pattern_rule(F, rep)
+    date_text_rule(F, rep)
     duration_literal_rule(F, rep)
     duration_text_rule(F, rep)
 
@@ -358,3 +360,115 @@ def fraction_carrier_rule(F, rep):
                     rep.ok(rid, key, "no binary floating point value in the data slice of the nanosecond component")
     if not n_sites:
         rep.undecided(rid, "sites", "no function of the temporal module builds a FeelTime from a computed nanosecond value")
+
+
+# ======================================================================================================
+# R14.6: the regular expressions of the literal readers admit the lexical forms of XML Schema dates / times and the names of the zone database
+LEXICAL = {
+    # constant -> (texts that are valid lexical forms, texts that are malformed in a way no later validation can repair)
+    "DATE_PATTERN": (["2021-03-28", "-2021-03-28", "999999999-12-31", "-999999999-01-01", "0999-01-01", "0001-01-01", "12345-06-07"],
+                     ["21-03-28", "2021-3-28", "2021-03-8", "02021-03-28", "1234567890-01-01", "2021/03/28"]),
+    "TIME_PATTERN": (["10:00:00", "23:59:59.999999999", "00:00:00.5"], ["1:00:00", "10:00", "10:00:00.", "10.00.00"]),
+    "OFFSET_PATTERN": (["+05:30", "-00:30", "+14:00", "-14:59:59"], ["+5:30", "05:30", "+05:3", "+05-30"]),
+    "ZONE_PATTERN": (["@UTC", "@Europe/Warsaw", "@America/Argentina/Buenos_Aires", "@Etc/GMT+5", "@Etc/GMT-14", "@America/Port-au-Prince", "@Asia/Ho_Chi_Minh", "@EST5EDT"],
+                     ["@", "Europe/Warsaw", "@Europe Warsaw"]),
+}
+
+
+def lexical_pattern_rule(F, rep):
+    """The readers of temporal literals first match the text against regular expressions assembled from four constants.  A constant is a specification of a lexical form and can
+    be judged as such: it is compiled (same syntax in Python's re for the constructs used; a constant that does not compile there is UNDECIDED) and matched against a table of
+    valid forms - XML Schema 1.1 part 2 for dates (at least four year digits, a leading zero only to pad to four), times and offsets, the IANA time zone database for zone names
+    (letters, digits, `_`, `-`, `+`, `/`) - and of malformed ones.  A valid form the pattern rejects can never be read; a malformed one it admits is parsed as something else."""
+    rid = rep.rule("R14.6", "the regular expressions of the literal readers admit the valid lexical forms of dates, times, offsets and zone names (XML Schema, IANA zone database) and reject malformed ones")
+    for const, (valid, malformed) in sorted(LEXICAL.items()):
+        cands = [n for n in F.hir if n.startswith("dmntk_feel::temporal") and n.split("::")[-1] == const]
+        if not cands:
+            rep.undecided(rid, const, "no constant of this name in the temporal module (the patterns have been reorganised)")
+            continue
+        b = strip(F.hir[cands[0]]["body"])
+        if b.get("k") != "Lit" or not isinstance(b.get("v"), str):
+            rep.undecided(rid, const, "the constant is not a string literal")
+            continue
+        try:
+            rx = re.compile("(?:%s)" % b["v"])
+        except re.error as e:
+            rep.undecided(rid, const, "the pattern does not compile as a Python regular expression (%s)" % e)
+            continue
+        rejected = [t for t in valid if rx.fullmatch(t) is None]
+        admitted = [t for t in malformed if rx.fullmatch(t) is not None]
+        where = "%s:%s" % (F.hir[cands[0]]["file"], F.hir[cands[0]]["line"])
+        if rejected or admitted:
+            rep.violation(rid, const, "%s = %r %s" % (const, b["v"], "; ".join(x for x in (
+                "rejects the valid form(s) %s" % ", ".join(rejected) if rejected else "", "admits the malformed text(s) %s" % ", ".join(admitted) if admitted else "") if x)), where)
+        else:
+            rep.ok(rid, const, "%d valid forms matched, %d malformed texts rejected" % (len(valid), len(malformed)))
+
+
+# ======================================================================================================
+# R14.7: the text of a date is a literal that reads back as the same date
+def date_text_rule(F, rep):
+    """Display for FeelDate folded on representative (year, month, day) triples - both signs, fewer than four year digits, nine digits; the text must match the reader's own
+    DATE_PATTERN constant and the matched sign / year / month / day must be the components printed."""
+    import strfold
+    from hireval import Evaluator, TooManyPaths
+    rid = rep.rule("R14.7", "the text form of a date (Display for FeelDate, folded on representative dates) matches the reader's date pattern and reads back as the same year, month and day")
+    disp = [n for n in F.hir if re.match(r"^<dmntk_feel::temporal::date::FeelDate as core::fmt::Display>::fmt$", n)]
+    pat = [n for n in F.hir if n.startswith("dmntk_feel::temporal") and n.split("::")[-1] == "DATE_PATTERN"]
+    if not disp:
+        rep.missing_anchor(rid, "Display for FeelDate")
+        return
+    pb = strip(F.hir[pat[0]]["body"]) if pat else {}
+    try:
+        rx = re.compile("(?:%s)" % pb["v"]) if pb.get("k") == "Lit" else None
+    except re.error:
+        rx = None
+    if rx is None:
+        rep.undecided(rid, "date-text", "the date pattern constant was not found / does not compile")
+        return
+    h = F.hir[disp[0]]
+    probs, und, ok = [], 0, 0
+    for y in (-999999999, -12345, -1000, -999, -1, 1, 999, 1000, 2021, 999999999):
+        for m_, d_ in ((1, 1), (12, 31)):
+            ev = Evaluator(F, ints=True, max_paths=400)
+            sf = strfold.StrFold(ev)
+
+            def hook(c, a, s_, sf=sf):
+                c = c or ""
+                if c.endswith("::write_fmt") and len(a) == 2:
+                    r = sf.format_value(a[1])
+                    return ("written", r) if r is not None else None
+                return sf.hook(c, a, s_)
+            ev.call_hook = hook
+            try:
+                outs = ev.run(h["params"], h["body"], [("tuple", [("lit", y), ("lit", m_), ("lit", d_)]), ("sym", "f")])
+            except (TooManyPaths, ValueError, KeyError, RecursionError):
+                outs = []
+            txts = set()
+            for _, v in outs:
+                if isinstance(v, tuple) and v[0] == "written" and strfold.as_str(v[1]) is not None and all(a_[0] == "c" for a_ in strfold.as_str(v[1])[1]):
+                    txts.add("".join(a_[1] for a_ in strfold.as_str(v[1])[1]))
+                else:
+                    txts.add(None)
+            if len(txts) != 1 or None in txts:
+                und += 1
+                continue
+            t = txts.pop()
+            mt = rx.fullmatch(t)
+            back = None
+            if mt:
+                try:
+                    gd = mt.groupdict()
+                    back = ((-1 if gd.get("sign") else 1) * int(gd["year"]), int(gd["month"]), int(gd["day"]))
+                except (KeyError, ValueError, TypeError):
+                    back = None
+            if back != (y, m_, d_):
+                probs.append("the date (%d, %d, %d) is printed `%s`, which %s" % (y, m_, d_, t, "is not a date literal" if not mt else "reads back as %s" % (back,)))
+            else:
+                ok += 1
+    if probs:
+        rep.violation(rid, "date-text", "; ".join(probs[:3]) + " (%d of 20 representative dates)" % len(probs), "%s:%s" % (h["file"], h["line"]))
+    elif und:
+        rep.undecided(rid, "date-text", "%d of 20 representative dates do not fold to a literal text" % und)
+    else:
+        rep.ok(rid, "date-text", "20 representative dates print as literals that read back as the same date")
